@@ -73,6 +73,9 @@ type Trace struct {
 	// what the run ended with when it was recorded
 	Violation *Violation `json:"violation,omitempty"`
 	Build     string     `json:"build,omitempty"` // "default" or "purego" (informational)
+	// Procs is the GOMAXPROCS setting of the process that recorded the run (a
+	// replay uses the same one: environment-selected code paths, per-P pools)
+	Procs int `json:"gomaxprocs,omitempty"`
 	// Prelude: runs that were executed earlier in the same OS process. They
 	// are only kept in a replay file when the violation does not reproduce
 	// from a cold process, i.e. when it depends on package state left behind
